@@ -1,10 +1,12 @@
 // Command xbuildbn links the signing-session engine, whose BN256/BN254 field
 // arithmetic is assembly in the default build and pure Go under the tag
-// "generic". checks/C18.sh builds both and diffs the transcripts.
+// "generic", and the replicated-program engine (family bn256: pools seeded with
+// edge-limb field elements). checks/C18.sh builds both and diffs the transcripts.
 package main
 
 import (
 	"verif/sim/core"
+	_ "verif/sim/engines/heterosim"
 	_ "verif/sim/engines/signsim"
 )
 
